@@ -110,7 +110,7 @@ func Sleep(ns uint64) {
 }
 
 func MapClear[M ~map[K]V, K comparable, V any](m M) {
-	for k := range m {
-		delete(m, k)
-	}
+	// the builtin also removes entries whose key is not equal to itself (NaN),
+	// which a range/delete loop leaves behind
+	clear(m)
 }
